@@ -268,4 +268,108 @@ theorem nodupB_append_cons {x : Name} : ∀ (a b : List Name), nodupB (a ++ x ::
     · exact hxa hmem
 
 
+/-- "not repeatable" as the reference validator reads it -/
+def nonRepeatable (S : Schema) (d : Directive) : Bool :=
+  match S.directiveDef? d.name with | some dd => !dd.repeatable | none => true
+
+/-- scan lemma for `check_directives` -/
+theorem checkDirectivesAux_nil {S : Schema} {vars : Option (List VarDef)} {loc : String} :
+    ∀ (ds : List Directive) (seen : List Name), checkDirectivesAux S vars loc seen ds = [] →
+      (∀ d ∈ ds, ∃ dd, S.directiveDef? d.name = some dd ∧ dd.locations.contains loc = true) ∧
+      (∀ d ∈ ds, nonRepeatable S d = true → d.name ∉ seen) ∧
+      nodupB ((ds.filter (nonRepeatable S)).map (·.name)) = true := by
+  intro ds
+  induction ds with
+  | nil => intro _ _; simp [nodupB]
+  | cons d ds ih =>
+    intro seen h
+    simp only [checkDirectivesAux] at h
+    cases hd : S.directiveDef? d.name with
+    | none => simp [hd] at h
+    | some dd =>
+      simp only [hd] at h
+      obtain ⟨h1, h4⟩ := append_eq_nil' h
+      obtain ⟨h1, _⟩ := append_eq_nil' h1
+      obtain ⟨h1, h2⟩ := append_eq_nil' h1
+      obtain ⟨ihA, ihB, ihC⟩ := ih _ h4
+      have hloc : dd.locations.contains loc = true := by
+        cases hc : dd.locations.all (· != loc) with
+        | true => rw [hc] at h1; exact absurd h1 (by simp)
+        | false =>
+          obtain ⟨x, hx, hxl⟩ : ∃ x ∈ dd.locations, ¬ ((x != loc) = true) := by
+            simpa [List.all_eq_true] using hc
+          have : x = loc := by simpa using hxl
+          subst this
+          simpa using hx
+      have hnr : nonRepeatable S d = !dd.repeatable := by simp [nonRepeatable, hd]
+      have hseen : nonRepeatable S d = true → seen.contains d.name = false := by
+        intro hn
+        cases hc : seen.contains d.name with
+        | false => rfl
+        | true =>
+          rw [hc] at h2
+          rw [hnr] at hn
+          have : dd.repeatable = false := by simpa using hn
+          simp [this] at h2
+      refine ⟨?_, ?_, ?_⟩
+      · intro e he
+        rcases List.mem_cons.mp he with rfl | he
+        · exact ⟨dd, hd, hloc⟩
+        · exact ihA e he
+      · intro e he hn
+        rcases List.mem_cons.mp he with rfl | he
+        · simpa using hseen hn
+        · intro hmem
+          refine ihB e he hn ?_
+          split
+          · exact hmem
+          · exact List.mem_append_left _ hmem
+      · by_cases hn : nonRepeatable S d = true
+        · have hs := hseen hn
+          rw [hs] at ihB
+          simp only [Bool.false_eq_true, if_false] at ihB
+          simp only [List.filter_cons, hn, if_true, List.map_cons, nodupB, Bool.and_eq_true,
+            Bool.not_eq_true', ihC, and_true]
+          cases hc : ((ds.filter (nonRepeatable S)).map (·.name)).contains d.name with
+          | false => rfl
+          | true =>
+            exfalso
+            have : d.name ∈ (ds.filter (nonRepeatable S)).map (·.name) := by simpa using hc
+            obtain ⟨e, he, hen⟩ := List.mem_map.mp this
+            obtain ⟨he1, he2⟩ := List.mem_filter.mp he
+            exact ihB e he1 he2 (by rw [hen]; exact List.mem_append_right _ (by simp))
+        · have hn' : nonRepeatable S d = false := by simpa using hn
+          simpa [List.filter_cons, hn'] using ihC
+
+/-- every variable definition of an accepted variable list has accepted directives -/
+theorem checkVariablesAux_dirs {S : Schema} :
+    ∀ (vs : List VarDef) (seen : List Name), checkVariablesAux S seen vs = [] →
+      ∀ v ∈ vs, checkDirectives S none v.dirs "VARIABLE_DEFINITION" = [] := by
+  intro vs
+  induction vs with
+  | nil => intro _ _ v hv; cases hv
+  | cons w vs ih =>
+    intro seen h v hv
+    simp only [checkVariablesAux] at h
+    obtain ⟨h1, h4⟩ := append_eq_nil' h
+    obtain ⟨h1, _⟩ := append_eq_nil' h1
+    obtain ⟨_, h2⟩ := append_eq_nil' h1
+    rcases List.mem_cons.mp hv with rfl | hv
+    · exact h2
+    · exact ih _ h4 v hv
+
+/-- the three directive rules on one directive list, as the reference validator states them per site -/
+def dirSiteOk (S : Schema) (site : String × List Directive) : Prop :=
+  (∀ d ∈ site.2, (S.directiveDef? d.name).isSome = true) ∧
+  (∀ d ∈ site.2, (match S.directiveDef? d.name with | some dd => dd.locations.contains site.1 | none => true) = true) ∧
+  nodupB ((site.2.filter fun d => match S.directiveDef? d.name with | some dd => !dd.repeatable | none => true).map (·.name)) = true
+
+theorem dirSiteOk_of_checkDirectives {S : Schema} {vars : Option (List VarDef)} {loc : String} {ds : List Directive}
+    (h : checkDirectives S vars ds loc = []) : dirSiteOk S (loc, ds) := by
+  obtain ⟨hA, _, hC⟩ := checkDirectivesAux_nil ds [] h
+  refine ⟨?_, ?_, ?_⟩
+  · intro d hd; obtain ⟨dd, hdd, _⟩ := hA d hd; simp [hdd]
+  · intro d hd; obtain ⟨dd, hdd, hl⟩ := hA d hd; simpa [hdd] using hl
+  · exact hC
+
 end NitroVerif.CheckOp
